@@ -120,7 +120,7 @@ def _run_variant(args):
     try:
         prog = Program(repo, overlay)
         chk = run_rules(prop, prog, "quick")
-        return ("ok", sorted(chk.failure_keys()), "")
+        return ("ok", sorted(chk.failure_keys()), " | ".join(chk.refusals))
     except AnalysisError as e:
         return ("analysis-error", [], str(e))
     except Exception as e:  # pragma: no cover
@@ -153,6 +153,8 @@ def run_battery(prop, repo, base_failures, seed=0, jobs=16):
     broken = []
     for (v, _), (status, fails, err) in zip(work, outs):
         new = [tuple(f) for f in fails if tuple(f) not in base]
+        if status == "ok" and err and (not new or v["kind"] == "twin"):
+            status = "analysis-error"  # a rule refused and nothing else fired
         exp = v.get("expect")
         if v["kind"] == "seeded":
             if status == "ok" and any(r == exp or r.startswith(exp) for r, _ in new):
